@@ -15,11 +15,23 @@ package textanalyzer
 //     apostrophes and hyphens; everything else separates. The reference tokenizer
 //     below is written from that sentence.
 //   - CompressionRatio: "Returns a value between 0.0 ... and 1.0".
+//   - "the same output for the same input" is also judged ACROSS call histories: the result of
+//     Tokenize / EnglishStemmer.Analyze / ItalianStemmer.Analyze / Compress on a string may not depend
+//     on what the process analysed before (other texts, the other language, another order). Within one
+//     process a remembered value never changes, so repeating a call cannot see such a dependence; the
+//     reference is a second, fresh process (this test binary re-executed once per run) that performs
+//     the recorded calls of the campaign in exactly the reverse order. Every call must return the same
+//     value in both processes (c20_history below). The order of the two analysers is generated per case.
 
 import (
+	"encoding/json"
 	"fmt"
+	"os"
+	"os/exec"
+	"path/filepath"
 	"strings"
 	"testing"
+	"time"
 	"unicode"
 	"unicode/utf8"
 
@@ -30,7 +42,22 @@ import (
 type c20TextCase struct {
 	Text c20Text `json:"text"`
 	Lang string  `json:"lang"`
+	// Order is which analyser sees the text first: "" / "en_it" or "it_en".
+	Order string `json:"order,omitempty"`
+	// History is set only in replay files written by the cross-process comparison: the calls are
+	// executed in this order by one fresh process and in the reverse order by another one.
+	History []c20Call `json:"history,omitempty"`
 }
+
+// c20Call is one call of the analysis API. Op: "tok" Tokenize, "en" EnglishStemmer.Analyze,
+// "it" ItalianStemmer.Analyze, "cmp" Compress(text, Lang).
+type c20Call struct {
+	Op   string  `json:"op"`
+	Lang string  `json:"lang,omitempty"`
+	Text c20Text `json:"text"`
+}
+
+var c20Orders = []string{"en_it", "it_en"}
 
 var c20Langs = []string{"english", "italian", "en", "it", "", "eng", "ita", "EN", "Italian", "fr", "xx"}
 
@@ -78,9 +105,10 @@ func c20Clip(s string) string {
 	return fmt.Sprintf("%q", s)
 }
 
-// c20RunText returns "" or a violation message.
-func c20RunText(c c20TextCase) (msg string) {
+// c20RunText returns "" or a violation message. rec (may be nil) receives the calls made and their results.
+func c20RunText(c c20TextCase, rec *c20Recorder) (msg string) {
 	s := c.Text.String()
+	keep := rec.want(len(s))
 	stage := "start"
 	defer func() {
 		if r := recover(); r != nil {
@@ -100,23 +128,51 @@ func c20RunText(c c20TextCase) (msg string) {
 			return fmt.Sprintf("Tokenize produced an empty token on %s", c20Clip(s))
 		}
 	}
-
-	stage = "EnglishStemmer.Analyze"
-	en := NewEnglishStemmer()
-	e1 := en.Analyze(s)
-	e2 := NewEnglishStemmer().Analyze(s)
-	e3 := en.Analyze(s)
-	if !c20EqualStrings(e1, e2) || !c20EqualStrings(e1, e3) {
-		return fmt.Sprintf("EnglishStemmer.Analyze not deterministic on %s", c20Clip(s))
+	if keep {
+		rec.add(c20Call{Op: "tok", Text: c.Text}, t1)
 	}
 
-	stage = "ItalianStemmer.Analyze"
-	it := NewItalianStemmer()
-	i1 := it.Analyze(s)
-	i2 := NewItalianStemmer().Analyze(s)
-	i3 := it.Analyze(s)
-	if !c20EqualStrings(i1, i2) || !c20EqualStrings(i1, i3) {
-		return fmt.Sprintf("ItalianStemmer.Analyze not deterministic on %s", c20Clip(s))
+	var e1, i1 []string
+	english := func() string {
+		stage = "EnglishStemmer.Analyze"
+		en := NewEnglishStemmer()
+		e1 = en.Analyze(s)
+		e2 := NewEnglishStemmer().Analyze(s)
+		e3 := en.Analyze(s)
+		if !c20EqualStrings(e1, e2) || !c20EqualStrings(e1, e3) {
+			return fmt.Sprintf("EnglishStemmer.Analyze not deterministic on %s", c20Clip(s))
+		}
+		if keep {
+			rec.add(c20Call{Op: "en", Text: c.Text}, e1)
+		}
+		return ""
+	}
+	italian := func() string {
+		stage = "ItalianStemmer.Analyze"
+		it := NewItalianStemmer()
+		i1 = it.Analyze(s)
+		i2 := NewItalianStemmer().Analyze(s)
+		i3 := it.Analyze(s)
+		if !c20EqualStrings(i1, i2) || !c20EqualStrings(i1, i3) {
+			return fmt.Sprintf("ItalianStemmer.Analyze not deterministic on %s", c20Clip(s))
+		}
+		if keep {
+			rec.add(c20Call{Op: "it", Text: c.Text}, i1)
+		}
+		return ""
+	}
+	first, second := english, italian
+	if c.Order == "it_en" {
+		first, second = italian, english
+	}
+	if m := first(); m != "" {
+		return m
+	}
+	if m := second(); m != "" {
+		return m
+	}
+	if keep && !c20EqualStrings(e1, i1) {
+		rec.langSensitive++
 	}
 
 	stage = "Compress"
@@ -124,6 +180,9 @@ func c20RunText(c c20TextCase) (msg string) {
 	c2 := Compress(s, c.Lang)
 	if c1 != c2 {
 		return fmt.Sprintf("Compress(lang=%q) not deterministic on %s", c.Lang, c20Clip(s))
+	}
+	if keep {
+		rec.add(c20Call{Op: "cmp", Lang: c.Lang, Text: c.Text}, []string{c1})
 	}
 	in := c20RefTokens(s)
 	var out []string
@@ -169,6 +228,11 @@ func c20RunText(c c20TextCase) (msg string) {
 func c20TextLabels(c c20TextCase) (nontrivial bool, labels []string) {
 	s := c.Text.String()
 	labels = append(labels, "class:"+c.Text.Class, "lang:"+c.Lang)
+	if c.Order == "it_en" {
+		labels = append(labels, "order:italian_first")
+	} else {
+		labels = append(labels, "order:english_first")
+	}
 	toks := c20RefTokens(s)
 	neg := 0
 	for _, t := range toks {
@@ -216,7 +280,7 @@ func c20TextLabels(c c20TextCase) (nontrivial bool, labels []string) {
 }
 
 func TestVerif_C20_text(t *testing.T) {
-	col := verifkit.New("C20", "text", "rapid-generated texts (classes: empty, vocabulary words incl. negations/stop words/stemmer suffix triggers, only separators, no separators, mixed scripts, combining marks, invalid UTF-8, ~100 KB repeats, random unicode, stem+suffix constructions, small-alphabet soup) x Compress language code; Tokenize, both stemmers' Analyze, Compress and CompressionRatio are run twice; non-trivial = the text has >= 2 word tokens")
+	col := verifkit.New("C20", "text", "rapid-generated texts (classes: empty, vocabulary words incl. negations/stop words/stemmer suffix triggers, only separators, no separators, mixed scripts, combining marks, invalid UTF-8, ~100 KB repeats, random unicode, stem+suffix constructions, small-alphabet soup, words shared by the English and the Italian analyser) x Compress language code x which analyser goes first; Tokenize, both stemmers' Analyze, Compress and CompressionRatio are run twice, and at the end of the campaign the recorded calls (all texts up to 8 KB until 1 MB is reached, plus two larger ones) are executed in the reverse order by a fresh process whose results must equal the recorded ones call by call; non-trivial = the text has >= 2 word tokens")
 	defer col.Finish()
 	if p := verifkit.ReplayPath(); p != "" {
 		if verifkit.ReplayPart(p) != "text" {
@@ -227,7 +291,18 @@ func TestVerif_C20_text(t *testing.T) {
 			t.Fatal(err)
 		}
 		col.Case(c, true, "replay")
-		if msg := c20RunText(c); msg != "" {
+		if len(c.History) > 0 {
+			msg, err := c20HistoryReplay(c.History)
+			if err != nil {
+				t.Fatalf("harness: %v", err)
+			}
+			if msg != "" {
+				col.Fail(c, "%s", msg)
+				t.Fatal(msg)
+			}
+			return
+		}
+		if msg := c20RunText(c, nil); msg != "" {
 			col.Fail(c, "%s", msg)
 			t.Fatal(msg)
 		}
@@ -235,15 +310,34 @@ func TestVerif_C20_text(t *testing.T) {
 	}
 	verifkit.RapidSetup(3500, 150000)
 	gen := c20GenText(false)
+	rec := &c20Recorder{}
 	rapid.Check(t, func(rt *rapid.T) {
-		c := c20TextCase{Text: gen.Draw(rt, "text"), Lang: c20Pick(rt, c20Langs, "lang")}
+		c := c20TextCase{Text: gen.Draw(rt, "text"), Lang: c20Pick(rt, c20Langs, "lang"), Order: c20Pick(rt, c20Orders, "order")}
 		nt, labels := c20TextLabels(c)
 		col.Case(c, nt, labels...)
-		if msg := c20RunText(c); msg != "" {
+		if msg := c20RunText(c, rec); msg != "" {
 			col.Fail(c, "%s", msg)
 			rt.Fatalf("%s", msg)
 		}
 	})
+	if t.Failed() || col.Failed() {
+		return
+	}
+	// the same calls, in the reverse order, in a fresh process
+	col.Label("history:calls_compared_with_fresh_process", len(rec.calls))
+	col.Label("history:texts_compared_with_fresh_process", rec.texts)
+	col.Label("history:texts_where_the_two_languages_give_different_results", rec.langSensitive)
+	t0 := time.Now()
+	fc, msg, err := c20HistoryCampaign(rec)
+	col.Extra("history_fresh_process_wall_s", time.Since(t0).Seconds())
+	col.Extra("history_recorded_text_bytes", rec.bytes)
+	if err != nil {
+		t.Fatalf("harness: %v", err)
+	}
+	if msg != "" {
+		col.Fail(fc, "%s", msg)
+		t.Fatal(msg)
+	}
 }
 
 // Native fuzz target (optional, thorough tier by hand: go test -fuzz FuzzVerifC20Text).
@@ -253,8 +347,303 @@ func FuzzVerifC20Text(f *testing.F) {
 	}
 	f.Fuzz(func(t *testing.T, s string, lang string) {
 		c := c20TextCase{Text: c20Text{Class: "fuzz", Pieces: []c20Piece{c20MkPiece(s, 1)}}, Lang: lang}
-		if msg := c20RunText(c); msg != "" {
+		if msg := c20RunText(c, nil); msg != "" {
 			t.Fatal(msg)
 		}
 	})
+}
+
+// ---------------------------------------------------------------------------------------------
+// c20_history: the same input gives the same output whatever the process analysed before.
+//
+// The campaign records (a bounded part of) the calls it makes together with their results. When
+// it is over, this test binary is executed once more (TestVerifC20HistoryChild, a fresh process)
+// and performs the recorded calls in the reverse order: the last text first, and for every text
+// Compress, then the analyser that came second, then the one that came first, then Tokenize. The
+// property gives every call one admissible result, so the two processes must agree call by call.
+// Nothing of the implementation is consulted. A disagreement is reduced to a short history (the
+// calls on the text concerned) with two more pairs of fresh processes and written as a replay.
+
+type c20Recorder struct {
+	calls         []c20Call
+	outs          [][]string
+	bytes         int
+	texts         int
+	big           int
+	langSensitive int
+}
+
+const (
+	c20RecSmall    = 8 << 10 // texts up to this size are recorded until c20RecMaxBytes is reached
+	c20RecMaxBytes = 1 << 20
+	c20RecMaxBig   = 2 // plus this many larger ones
+)
+
+func (r *c20Recorder) want(n int) bool {
+	if r == nil {
+		return false
+	}
+	if n > c20RecSmall {
+		if r.big >= c20RecMaxBig {
+			return false
+		}
+		r.big++
+	} else {
+		if r.bytes+n > c20RecMaxBytes {
+			return false
+		}
+		r.bytes += n
+	}
+	r.texts++
+	return true
+}
+
+func (r *c20Recorder) add(c c20Call, out []string) {
+	r.calls = append(r.calls, c)
+	r.outs = append(r.outs, append([]string(nil), out...))
+}
+
+func c20Exec(c c20Call) (out []string) {
+	defer func() {
+		if r := recover(); r != nil {
+			out = []string{fmt.Sprintf("\x00panic: %v", r)}
+		}
+	}()
+	s := c.Text.String()
+	switch c.Op {
+	case "tok":
+		return Tokenize(s)
+	case "en":
+		return NewEnglishStemmer().Analyze(s)
+	case "it":
+		return NewItalianStemmer().Analyze(s)
+	case "cmp":
+		return []string{Compress(s, c.Lang)}
+	}
+	return []string{"\x00unknown op " + c.Op}
+}
+
+type c20ChildJob struct {
+	Calls []c20Call `json:"calls"`
+	Order []int     `json:"order"`
+}
+
+// results travel as bytes (base64 in JSON): a token may hold any byte sequence
+type c20ChildOut struct {
+	Outs [][][]byte `json:"outs"`
+}
+
+// TestVerifC20HistoryChild is the body of the fresh process (it is skipped in every other situation;
+// its name keeps it out of the driver's ^TestVerif_C20_ pattern).
+func TestVerifC20HistoryChild(t *testing.T) {
+	in, outp := os.Getenv("VERIF_C20_HIST_IN"), os.Getenv("VERIF_C20_HIST_OUT")
+	if in == "" || outp == "" {
+		t.Skip("helper process of TestVerif_C20_text")
+	}
+	b, err := os.ReadFile(in)
+	if err != nil {
+		t.Fatal(err)
+	}
+	var job c20ChildJob
+	if err := json.Unmarshal(b, &job); err != nil {
+		t.Fatal(err)
+	}
+	res := c20ChildOut{Outs: make([][][]byte, len(job.Calls))}
+	for _, i := range job.Order {
+		if i < 0 || i >= len(job.Calls) {
+			t.Fatalf("bad index %d", i)
+		}
+		toks := c20Exec(job.Calls[i])
+		bs := make([][]byte, len(toks))
+		for k, tok := range toks {
+			bs[k] = []byte(tok)
+		}
+		res.Outs[i] = bs
+	}
+	ob, err := json.Marshal(res)
+	if err != nil {
+		t.Fatal(err)
+	}
+	if err := os.WriteFile(outp, ob, 0o644); err != nil {
+		t.Fatal(err)
+	}
+}
+
+// c20RunChild executes calls in the given order in a fresh process and returns the results by call index.
+func c20RunChild(calls []c20Call, order []int) ([][]string, error) {
+	exe, err := os.Executable()
+	if err != nil {
+		return nil, err
+	}
+	dir, cleanup := verifkit.TempDir("c20hist")
+	defer cleanup()
+	in, outp := filepath.Join(dir, "in.json"), filepath.Join(dir, "out.json")
+	jb, err := json.Marshal(c20ChildJob{Calls: calls, Order: order})
+	if err != nil {
+		return nil, err
+	}
+	if err := os.WriteFile(in, jb, 0o644); err != nil {
+		return nil, err
+	}
+	cmd := exec.Command(exe, "-test.run", "^TestVerifC20HistoryChild$", "-test.timeout", "30m")
+	cmd.Dir = dir
+	for _, kv := range os.Environ() {
+		if strings.HasPrefix(kv, "VERIF_REPLAY=") || strings.HasPrefix(kv, "VERIF_OUT=") || strings.HasPrefix(kv, "VERIF_C20_HIST_") {
+			continue
+		}
+		cmd.Env = append(cmd.Env, kv)
+	}
+	cmd.Env = append(cmd.Env, "VERIF_OUT="+dir, "VERIF_C20_HIST_IN="+in, "VERIF_C20_HIST_OUT="+outp)
+	log, err := cmd.CombinedOutput()
+	if err != nil {
+		if len(log) > 2000 {
+			log = log[len(log)-2000:]
+		}
+		return nil, fmt.Errorf("fresh process failed: %v: %s", err, log)
+	}
+	ob, err := os.ReadFile(outp)
+	if err != nil {
+		return nil, err
+	}
+	var res c20ChildOut
+	if err := json.Unmarshal(ob, &res); err != nil {
+		return nil, err
+	}
+	if len(res.Outs) != len(calls) {
+		return nil, fmt.Errorf("fresh process returned %d results for %d calls", len(res.Outs), len(calls))
+	}
+	outs := make([][]string, len(calls))
+	for i, bs := range res.Outs {
+		outs[i] = make([]string, len(bs))
+		for k, b := range bs {
+			outs[i][k] = string(b)
+		}
+	}
+	return outs, nil
+}
+
+func c20OpName(c c20Call) string {
+	switch c.Op {
+	case "tok":
+		return "Tokenize"
+	case "en":
+		return "EnglishStemmer.Analyze"
+	case "it":
+		return "ItalianStemmer.Analyze"
+	case "cmp":
+		return fmt.Sprintf("Compress(lang=%q)", c.Lang)
+	}
+	return c.Op
+}
+
+// c20FirstDiff describes where two results differ.
+func c20FirstDiff(a, b []string) string {
+	for k := 0; k < len(a) && k < len(b); k++ {
+		if a[k] != b[k] {
+			return fmt.Sprintf("element %d is %s in the first and %s in the second (%d and %d elements)", k, c20Clip(a[k]), c20Clip(b[k]), len(a), len(b))
+		}
+	}
+	return fmt.Sprintf("%d elements in the first and %d in the second", len(a), len(b))
+}
+
+func c20Reverse(n int) []int {
+	o := make([]int, n)
+	for i := range o {
+		o[i] = n - 1 - i
+	}
+	return o
+}
+
+func c20Forward(n int) []int {
+	o := make([]int, n)
+	for i := range o {
+		o[i] = i
+	}
+	return o
+}
+
+// c20HistoryReplay runs the calls in the given order in one fresh process and in the reverse order in
+// another one; "" when every call returned the same value in both.
+func c20HistoryReplay(h []c20Call) (string, error) {
+	fwd, err := c20RunChild(h, c20Forward(len(h)))
+	if err != nil {
+		return "", err
+	}
+	rev, err := c20RunChild(h, c20Reverse(len(h)))
+	if err != nil {
+		return "", err
+	}
+	for i := range h {
+		if !c20EqualStrings(fwd[i], rev[i]) {
+			var ops []string
+			for _, c := range h {
+				ops = append(ops, c.Op)
+			}
+			if len(ops) > 12 {
+				ops = append(ops[:12], fmt.Sprintf("... (%d calls)", len(h)))
+			}
+			return fmt.Sprintf("the same input does not give the same output: %s on %s (call %d of the history %v) returns different values in two fresh processes, "+
+				"the first executing the history in the given order and the second in the reverse order: %s",
+				c20OpName(h[i]), c20Clip(h[i].Text.String()), i, ops, c20FirstDiff(fwd[i], rev[i])), nil
+		}
+	}
+	return "", nil
+}
+
+// c20HistoryCampaign compares the recorded results of this process with a fresh process that executes
+// the recorded calls in the reverse order. It returns the replay case and the message of a disagreement.
+func c20HistoryCampaign(rec *c20Recorder) (any, string, error) {
+	n := len(rec.calls)
+	if n == 0 {
+		return nil, "", nil
+	}
+	got, err := c20RunChild(rec.calls, c20Reverse(n))
+	if err != nil {
+		return nil, "", err
+	}
+	bad := -1
+	for i := 0; i < n; i++ {
+		if !c20EqualStrings(rec.outs[i], got[i]) {
+			bad = i
+			break
+		}
+	}
+	if bad < 0 {
+		return nil, "", nil
+	}
+	mk := func(h []c20Call) c20TextCase {
+		return c20TextCase{Text: rec.calls[bad].Text, Lang: rec.calls[bad].Lang, History: h}
+	}
+	// the calls on the same text (they are adjacent in the record)
+	th := verifkit.Hash(rec.calls[bad].Text)
+	lo, hi := bad, bad
+	for lo > 0 && verifkit.Hash(rec.calls[lo-1].Text) == th {
+		lo--
+	}
+	for hi+1 < n && verifkit.Hash(rec.calls[hi+1].Text) == th {
+		hi++
+	}
+	var cands [][]c20Call
+	for j := lo; j <= hi; j++ {
+		if j < bad {
+			cands = append(cands, []c20Call{rec.calls[j], rec.calls[bad]})
+		} else if j > bad {
+			cands = append(cands, []c20Call{rec.calls[bad], rec.calls[j]})
+		}
+	}
+	cands = append(cands, append([]c20Call(nil), rec.calls[lo:hi+1]...), rec.calls)
+	for _, h := range cands {
+		msg, err := c20HistoryReplay(h)
+		if err != nil {
+			return nil, "", err
+		}
+		if msg != "" {
+			return mk(h), msg, nil
+		}
+	}
+	msg := fmt.Sprintf("the same input does not give the same output: %s on %s returned one value in the campaign process (recorded call %d of %d) and another in a fresh process "+
+		"that executed the recorded calls in the reverse order: %s (two fresh processes running only the recorded calls forwards and backwards agree, so calls of the campaign "+
+		"that were not recorded take part; the replay file holds the recorded calls)",
+		c20OpName(rec.calls[bad]), c20Clip(rec.calls[bad].Text.String()), bad, n, c20FirstDiff(rec.outs[bad], got[bad]))
+	return mk(rec.calls), msg, nil
 }
